@@ -43,7 +43,9 @@ PARTIAL = [
     'sample_rank_dependence)',
     'recovery_partial: marginals and correlation of a Gaussian-copula training table are recovered within sampling '
     'error — statistical consistency of scipy\'s estimators, not modelled (search, deep mode only, heuristic bands)',
-    'no_missing_values: NaN-freeness is a statement about binary64 values of scipy ppf/cdf; tie + search only',
+    'no_missing_values: finiteness / NaN-freeness of the cells is a statement about binary64 values of the external '
+    'ppf/cdf; tie + search only (the search hunts model seeds whose first draws are extreme, |z| > 5.17, and checks '
+    'the real sample: class schema-kde-tail-infinite = GaussianKDE.percent_point returns +-inf within float32-eps of 0/1)',
     'kendall invariance needs STRICTLY increasing percent_point∘Phi; for non-decreasing quantile functions only '
     'kendall_nondecreasing_le (concordant/discordant counts can only drop) is proved',
     'which distribution is fitted to a column (configuration look-up, selection, fall-back) is property C05; here a '
@@ -403,8 +405,15 @@ def table_request(cmd, case, *pre):
 
 
 # --------------------------------------------------------------------------------------------- oracles
-def schema_problems(model, case, out, n):
-    """the schema clause of C01 on one real sample -> list of (what, observed)."""
+def kde_backed(uni):
+    return type(uni).__name__ == 'GaussianKDE' or type(getattr(uni, '_instance', None)).__name__ == 'GaussianKDE'
+
+
+def schema_problems(model, case, out, n, draws=None):
+    """the schema clause of C01 on one real sample -> list of (what, observed).  `what` is part of the failure class:
+    an infinite cell of a GaussianKDE-backed column whose normal draw is beyond +-5.1 is the class
+    `kde-tail-infinite` (GaussianKDE.percent_point returns +-inf for u within float32-eps of 0 or 1); any other
+    non-finite cell is `nonfinite` / `nan`."""
     probs = []
     labels = list(case['labels'])
     if not isinstance(out, pd.DataFrame):
@@ -424,6 +433,16 @@ def schema_problems(model, case, out, n):
         v = col.to_numpy()
         if np.isnan(v).any():
             probs.append(('nan', f'{lab!r}: {int(np.isnan(v).sum())} NaN'))
+        if np.isinf(v).any():
+            rows = np.where(np.isinf(v))[0]
+            unis = list(model.univariates)
+            zs = None if draws is None or draws.shape != (len(v), len(labels)) else draws[rows, j]
+            tail = zs is not None and j < len(unis) and kde_backed(unis[j]) and bool(np.all(np.abs(zs) > 5.1))
+            probs.append(('kde-tail-infinite' if tail else 'nonfinite',
+                          {'column': repr(lab), 'rows': rows[:5].tolist(), 'values': v[rows[:5]].tolist(),
+                           'normal_draws': None if zs is None else zs[:5].tolist(),
+                           'univariate': type(unis[j]).__name__ + '>' + type(getattr(unis[j], '_instance', None)).__name__
+                           if j < len(unis) else '?'}))
         tr = np.asarray(case['cols'][j], dtype=float)
         if np.all(tr == tr[0]) and not (len(v) == n and np.all(v == tr[0])):
             probs.append(('constant', f'{lab!r}: trained on constant {tr[0]!r}, sampled {v[:4].tolist()}'))
@@ -581,7 +600,7 @@ def tie_case(ctx, lean, case, ns, note):
                 note('corr:draw-replay', {'first_diff': first_diff(rep.ravel(), draws.ravel()), 'case': brief(case, n=n)})
         first = False
         # schema of the real output
-        probs = schema_problems(model, case, out, n)
+        probs = schema_problems(model, case, out, n, draws)
         if probs:
             note('corr:schema', {'problems': probs[:3], 'case': brief(case, n=n)})
         # plan
@@ -722,7 +741,8 @@ def search(ctx, deep):
              'max_tau_dev': 0.0, 'n_big': N_BIG, 'dkw_eps': dkw_eps(N_BIG), 'tau_eps': hoeffding_tau_eps(N_BIG)}
     for t in range(ntab):
         case = make_case(rng, nr, quick=True, allow_kde=(t % 3 == 0 if deep else t == 0))
-        oracle_case(ctx, case, stats, schema_ns=[1, rng.randint(2, 200)], big=True)
+        oracle_case(ctx, case, stats, schema_ns=[1, rng.randint(2, 200)], big=True,
+                    hunt=(3000 if deep else (1500 if t < 2 else -1)))
     if deep:
         for t in range(3 if quick else 8):
             recovery_experiment(ctx, rng, nr, stats, use_default=(t == 0))
@@ -730,7 +750,63 @@ def search(ctx, deep):
     ctx.support = stats
 
 
-def oracle_case(ctx, case, stats, schema_ns, big, only=None):
+def extreme_seed(corr, cols, n, budget, thresh=5.17):
+    """first int seed s < budget such that RandomState(s).multivariate_normal(0, corr, n) — exactly what a model
+    seeded with s draws in its first sample(n) — has a cell beyond +-thresh in one of `cols`.  Deterministic."""
+    d = corr.shape[0]
+    zero = np.zeros(d)
+    for s_ in range(budget):
+        z = np.random.RandomState(s_).multivariate_normal(zero, corr, size=n)
+        if np.any(np.abs(z[:, cols]) > thresh):
+            return s_
+    return None
+
+
+def tail_hunt(ctx, case, model, stats, budget):
+    """"all seeds": look for a model seed whose FIRST sample(n) contains an extreme normal draw (|z| > 5.17, i.e.
+    Phi(z) within float32-eps of 0 or 1; probability 2.4e-7 per cell) and check the schema of that real sample."""
+    d = len(case['labels'])
+    unis = list(model.univariates)
+    cols = [j for j in range(d) if col_status(unis[j], case['cols'][j]) != 'const']
+    if not cols:
+        return
+    n = 2000
+    # search heuristic only (the verdict comes from the real sample below): prefer the columns whose percent_point is
+    # not finite at Phi(+-5.3); for those the seed budget is raised so that a seed is found with probability ~0.98
+    probe = st.norm.cdf(np.array([-5.3, 5.3]))
+    suspect = []
+    for j in cols:
+        try:
+            if not np.all(np.isfinite(np.asarray(unis[j].percent_point(probe), dtype=float))):
+                suspect.append(j)
+        except Exception:  # noqa
+            suspect.append(j)
+    if budget < 0 and not suspect:
+        return                                  # shallow mode: only hunt where the probe is suspicious
+    if suspect:
+        cols, budget = suspect, max(budget, 8000)
+        stats['tail_hunt_suspect_columns'] = stats.get('tail_hunt_suspect_columns', 0) + len(suspect)
+    s_ = extreme_seed(model.correlation.to_numpy(), cols, n, budget)
+    stats['tail_hunts'] = stats.get('tail_hunts', 0) + 1
+    if s_ is None:
+        return
+    stats['tail_hunt_seeds_found'] = stats.get('tail_hunt_seeds_found', 0) + 1
+    case2 = dict(case, seed=['int', s_])
+    model.set_random_state(s_)
+    ep = 'GaussianMultivariate.sample'
+    try:
+        out, calls = real_sample(model, case2, n, True)
+    except Exception as e:  # noqa
+        ctx.fail_input(ep, case_input(case2, n=n), 'raised ' + repr(e)[:300], 'sample(n) returns a frame', ep + ':raises')
+        return
+    draws = calls[0]['out'] if len(calls) == 1 else None
+    for what, obs in schema_problems(model, case2, out, n, draws):
+        ctx.fail_input(ep, case_input(case2, n=n), obs,
+                       'every sampled cell is a finite float (no missing / infinite values), also for the seeds whose '
+                       'normal draws are extreme', f'{ep}:schema-{what}')
+
+
+def oracle_case(ctx, case, stats, schema_ns, big, only=None, hunt=0):
     """C01 on the real code for one fitted model.  `only` restricts to one failure class (replay)."""
     ep = 'GaussianMultivariate.sample'
     try:
@@ -752,10 +828,15 @@ def oracle_case(ctx, case, stats, schema_ns, big, only=None):
             return
         first = False
         stats['schema_checks'] += 1
-        for what, obs in schema_problems(model, case, out, n):
+        for what, obs in schema_problems(model, case, out, n, calls[0]['out'] if len(calls) == 1 else None):
             ctx.fail_input(ep, case_input(case, n=n), obs,
-                           'exactly n rows, the training labels in training order, float columns without NaN, constant '
-                           'training columns reproduced exactly', f'{ep}:schema-{what}')
+                           'exactly n rows, the training labels in training order, finite float columns (no NaN / inf), '
+                           'constant training columns reproduced exactly', f'{ep}:schema-{what}')
+    if hunt:
+        tail_hunt(ctx, case, model, stats, hunt)
+        model, X = fit_model(case)          # fresh model: the hunt re-seeded the other one
+        unis = list(model.univariates)
+        first = True
     if not big:
         return
     n = N_BIG
@@ -764,10 +845,11 @@ def oracle_case(ctx, case, stats, schema_ns, big, only=None):
     except Exception as e:  # noqa
         ctx.fail_input(ep, case_input(case, n=n), 'raised ' + repr(e)[:300], 'sample(n) returns a frame', ep + ':raises')
         return
-    probs = schema_problems(model, case, out, n)
+    probs = schema_problems(model, case, out, n, calls[0]['out'] if len(calls) == 1 else None)
     stats['schema_checks'] += 1
     for what, obs in probs:
-        ctx.fail_input(ep, case_input(case, n=n), obs, 'schema', f'{ep}:schema-{what}')
+        ctx.fail_input(ep, case_input(case, n=n), obs, 'schema: finite float cells, n rows, training labels in order',
+                       f'{ep}:schema-{what}')
     if any(w in ('type', 'labels', 'rows', 'dtype') for w, _ in probs):
         return
     status = [col_status(unis[j], case['cols'][j]) for j in range(d)]
@@ -777,7 +859,7 @@ def oracle_case(ctx, case, stats, schema_ns, big, only=None):
     cols = {j: out.iloc[:, j].to_numpy() for j in range(d)}
     # marginals: KS distance to the FITTED marginal
     for j in nonconst:
-        if np.isnan(cols[j]).any():
+        if not np.all(np.isfinite(cols[j])):
             continue
         D = ks_distance(cols[j], unis[j].cdf)
         stats['ks_tests'] += 1
@@ -805,7 +887,7 @@ def oracle_case(ctx, case, stats, schema_ns, big, only=None):
     for a in range(len(nonconst)):
         for b in range(a + 1, len(nonconst)):
             j, k = nonconst[a], nonconst[b]
-            if np.isnan(cols[j]).any() or np.isnan(cols[k]).any():
+            if not (np.all(np.isfinite(cols[j])) and np.all(np.isfinite(cols[k]))):
                 continue
             tau_out = float(st.kendalltau(cols[j], cols[k]).statistic)
             tau_z = float(st.kendalltau(draws[:, j], draws[:, k]).statistic)
@@ -862,12 +944,16 @@ def recovery_experiment(ctx, rng, nr, stats, use_default=False):
     stats['recovery_experiments'] += 1
     try:
         model, X = fit_model(case)
-        out, _ = real_sample(model, case, N_BIG, True)
+        out, rcalls = real_sample(model, case, N_BIG, True)
     except Exception as e:  # noqa
         ctx.fail_input(ep, {'kinds': case['kinds'], 'config': spec, 'seed': case['seed']}, 'raised ' + repr(e)[:300],
                        'fit + sample succeed', ep + ':recovery-raises')
         return
     small = {'kinds': case['kinds'], 'config': spec, 'seed': case['seed'], 'true_corr': R.tolist(), 'N': N}
+    for what, obs in schema_problems(model, case, out, N_BIG, rcalls[0]['out'] if len(rcalls) == 1 else None):
+        ctx.fail_input('GaussianMultivariate.sample', case_input(case, n=N_BIG), obs,
+                       'schema: finite float cells, n rows, training labels in order',
+                       f'GaussianMultivariate.sample:schema-{what}')
     C = model.correlation.to_numpy()
     dev = float(np.max(np.abs(C - R)))
     stats['max_recovery_corr_dev'] = max(stats.get('max_recovery_corr_dev', 0.0), dev)
@@ -881,6 +967,8 @@ def recovery_experiment(ctx, rng, nr, stats, use_default=False):
         if not dj <= 0.12:
             ctx.fail_input(ep, dict(small, column=j), {'sup_cdf_dev': dj}, 'sup|F_fitted - F_true| <= 0.12 on a grid',
                            ep + ':recovery-marginal')
+        if not np.all(np.isfinite(out.iloc[:, j].to_numpy())):
+            continue
         ks = ks_distance(out.iloc[:, j].to_numpy(), dist.cdf)
         stats['max_recovery_sample_ks'] = max(stats.get('max_recovery_sample_ks', 0.0), ks)
         if not ks <= 0.12 + dkw_eps(N_BIG):
@@ -888,6 +976,8 @@ def recovery_experiment(ctx, rng, nr, stats, use_default=False):
                            'synthetic column within 0.12 + DKW of the generating marginal', ep + ':recovery-sample-marginal')
     for a in range(k):
         for b in range(a + 1, k):
+            if not (np.all(np.isfinite(out.iloc[:, a].to_numpy())) and np.all(np.isfinite(out.iloc[:, b].to_numpy()))):
+                continue
             tau = float(st.kendalltau(out.iloc[:, a].to_numpy(), out.iloc[:, b].to_numpy()).statistic)
             want = 2 / math.pi * math.asin(R[a, b])
             stats['max_recovery_tau_dev'] = max(stats.get('max_recovery_tau_dev', 0.0), abs(tau - want))
